@@ -35,6 +35,13 @@ CHECKS = {
                 text=TRACE_TXT + "every I/O step of every commit/compaction/close is failed once; the monitor keeps the set "
                      "of admissible graphs (pre / post) and narrows it at reopen.",
                 note="one fault per run"),
+    "C12": dict(ref="5 C12", tech="TLA+ reference semantics of updates (CypherUpdate.tla) evaluated by TLC on recorded executions (trace validation)",
+                text="CypherUpdate.ApplyStmt is a reference for CREATE, MERGE (+ON CREATE / ON MATCH), SET (property, = map, += map, labels), "
+                     "REMOVE, DELETE and DETACH DELETE after MATCH / OPTIONAL MATCH / UNWIND prefixes, clause at a time over the rows; after "
+                     "every generated statement the real graph is dumped and TLC requires it to equal ApplyStmt(previous dump) up to node "
+                     "identity; every MERGE is repeated and must then create nothing; statements whose outcome depends on row order are "
+                     "recognised by the specification (reversed-row evaluation) and not judged.",
+                note="known findings KF-15/16 (update expressions read a snapshot, not the statement's own writes)"),
     "C15": dict(ref="5 C15", tech="TLA+ reference evaluator (CypherSem.tla) on recorded executions of paired indexed / unindexed databases (trace validation)",
                 text="Each seeded history (creates, updates by id and by value, property removal, label changes, deletes, compaction, reopen, "
                      "index creation at a random point) runs on two databases, with and without the index; after every step the equality "
@@ -100,7 +107,7 @@ CHECKS = {
 }
 
 # properties whose check has been run green on the unchanged tree
-ENABLED = ["C01", "C02", "C04", "C05", "C06", "C07", "C08", "C11", "C15", "C17", "C19", "C20", "C21", "C22", "C23", "C26", "C27", "C28", "C33"]
+ENABLED = ["C01", "C02", "C04", "C05", "C06", "C07", "C08", "C11", "C12", "C15", "C17", "C19", "C20", "C21", "C22", "C23", "C26", "C27", "C28", "C33"]
 
 NOT_APPLICABLE = {
     "C16": "quantifies over arbitrary byte strings and resource exhaustion; no state machine to specify, a fuzzer's job (DESIGN.md 6)",
